@@ -480,6 +480,7 @@ def d_function_overloads_and_value_info(m):
         fo.domain, fo.version = "", 20
         if m.ir_version >= 10:
             f.value_info.add().CopyFrom(value_info("go", F(_shape_variants()[3]), "fn vi doc"))
+            f.value_info.add().CopyFrom(value_info("gx", tensor_type(TP.FLOAT, _shape_variants()[2], den="FNIN"), "fn input doc", 1))
     m.graph.node.add().CopyFrom(node("G", ["b"], ["g_out"], "n_g", domain="local", overload="fp16"))
     m.graph.output.add().CopyFrom(value_info("g_out", F()))
 
@@ -563,7 +564,10 @@ def gen_models(tier, pairs=False):
     for v in versions:
         yield f"baseline@{v}", baseline(v)
     for name, fn in DEVIATIONS:
-        for v in (versions if name in ("function_overloads_and_value_info", "device_configurations", "function_with_attributes") else [10]):
+        vs = versions if name in ("function_overloads_and_value_info", "device_configurations", "function_with_attributes") else [10]
+        if name == "function_overloads_and_value_info":
+            vs = [v for v in vs if v >= 10]  # FunctionProto.overload exists from IR version 10
+        for v in vs:
             m = baseline(v)
             fn(m)
             yield f"{name}@{v}", m
